@@ -236,16 +236,16 @@ func runC06(c *Ctx) {
 	showFrom("finding-F25", c06Witness25(), sp("foo"))
 
 	// ---- FilterSamplesByName: focus / ignore alone (the partition pair), then all combinations
-	for i := 0; i < c.Budget(200, 4000); i++ {
+	for i := 0; i < c.Budget(150, 4000); i++ {
 		rx := PickS(r, c06Rx)
 		seed := r.U64()
 		names("focus-only", c06GenStacks(NewRng(seed), kn), &rx, nil, nil, nil)
 		names("ignore-only", c06GenStacks(NewRng(seed), kn), nil, &rx, nil, nil)
 	}
-	for i := 0; i < c.Budget(400, 8000); i++ {
+	for i := 0; i < c.Budget(280, 8000); i++ {
 		names("names-rand", c06GenStacks(r, kn), pickRx(1, 2), pickRx(1, 2), pickRx(1, 2), pickRx(1, 2))
 	}
-	for i := 0; i < c.Budget(300, 5000); i++ {
+	for i := 0; i < c.Budget(200, 5000); i++ {
 		showFrom("showfrom-rand", c06GenStacks(r, kn), pickRx(9, 10))
 	}
 	for i := 0; i < c.Budget(150, 2000); i++ {
@@ -261,7 +261,7 @@ func runC06(c *Ctx) {
 		tagsByName("tagsbyname-rand", c06GenStacks(r, kn), sh, hi)
 	}
 	// ---- applyFocus: single options, pairs, random subsets, invalid expressions
-	for i := 0; i < c.Budget(350, 6000); i++ {
+	for i := 0; i < c.Budget(250, 6000); i++ {
 		opts := map[string]string{}
 		if r.Bool() {
 			opts["tagfocus"] = PickS(r, c06TagRx)
@@ -282,6 +282,9 @@ func runC06(c *Ctx) {
 		p := c06GenStacks(r, kn)
 		for _, s := range p.Sample {
 			v := PickI(r, []int64{lo - 1, lo, lo + 1, hi - 1, hi, hi + 1}) * mult
+			if mult > 1 && r.Bool() { // not a whole multiple of the filter's unit
+				v += PickI(r, []int64{1, mult / 2, mult - 1, -1})
+			}
 			s.NumLabel = map[string][]int64{"bytes": {v}}
 			s.NumUnit = map[string][]string{"bytes": {"bytes"}}
 			if unit == "" {
@@ -383,6 +386,8 @@ func runC06(c *Ctx) {
 		rawReport("rawreport-overlap", c06GenStacks(r, kn), opts, true)
 		rawReport("rawreport-overlap", c06GenStacks(r, kn), opts, false)
 	}
+	// ---- end-to-end layer
+	c06E2EStreams(c)
 }
 
 func c06Base() *profile.Profile {
